@@ -4,6 +4,8 @@
 -/
 import TinyHttpModel.Lts.Pool
 import TinyHttpModel.Lemmas.PoolInv
+import TinyHttpModel.Lts.Whole
+import TinyHttpModel.Lemmas.WholeInv
 
 namespace TH.Props.C08
 open TH.Lts.Pool
@@ -87,5 +89,36 @@ example : (run init [.begin 0, .begin 1, .begin 2, .begin 3, .look 0, .look 1, .
 example : (run init [.begin 0, .begin 1, .begin 2, .begin 3, .look 0, .look 1, .look 2, .look 3,
       .dispatch 10 (.queued (some 0)), .dispatch 11 (.queued (some 1)), .dispatch 12 (.queued (some 2)),
       .dispatch 13 (.queued (some 3)), .dispatch 14 (.queued none)]) = none := by decide
+
+/-! ### the whole server (`Lts.Whole`) -/
+
+/-- the pool of every execution of the whole server is an execution of `Lts.Pool`. -/
+theorem whole_pool_reachable (s : Lts.Whole.State) (h : Lts.Whole.Reachable s) : Reachable s.pool :=
+  Lts.Whole.pool_reachable h
+
+/-- steps that need no connection to end and no client to do anything: the pool's own steps
+    (a worker begins, looks at the queue of tasks, is woken) and pushes. -/
+def Lts.Whole.isProgressOnly : Lts.Whole.Label → Bool
+  | .pool (.begin _) => true
+  | .pool (.look _) => true
+  | .pool (.wake _ false) => true
+  | .push _ _ => true
+  | _ => false
+
+/-- Isolation, whole server: whenever connection `k` has a complete request that is not queued
+    yet — whatever the other connections are doing: idle, stalled in the middle of a request,
+    waiting on their handlers, however many there are and however they arrived — there is a
+    continuation made only of the pool's own steps and of pushes (no other connection ends, no
+    client sends or closes anything, no time passes) after which that request is in the queue. -/
+theorem whole_connection_never_waits_for_another (s : Lts.Whole.State) (h : Lts.Whole.Reachable s)
+    (hd : s.pool.dropped = false) (k : Nat) (c : Lts.Whole.Conn) (hk : s.conns[k]? = some c)
+    (hp : c.pushed < c.sent.length) :
+    ∃ ls s', (∀ l ∈ ls, Lts.Whole.isProgressOnly l = true) ∧ Lts.Whole.run s ls = some s' ∧
+      ∃ c', s'.conns[k]? = some c' ∧ c'.pushed = c.pushed + 1 ∧ c'.sent = c.sent := by
+  have _ := hd  -- not needed: a dropped pool still starts what it has accepted
+  obtain ⟨ls, s', hls, hrun, hc'⟩ := Lts.Whole.next_request_can_be_queued h hk hp
+  refine ⟨ls, s', ?_, hrun, _, hc', rfl, rfl⟩
+  intro l hl
+  rcases hls l hl with ⟨w, rfl⟩ | ⟨w, rfl⟩ | ⟨w, woke, rfl⟩ <;> rfl
 
 end TH.Props.C08
